@@ -253,8 +253,8 @@ def scoped_case(prod, callees):
                                            'a directive name can be taken for a macro name' % (prod, callee, vtop or 'nothing pushed'),
                                            'model': None, 'status': 'reproduced', 'role': 'kw:directive-scope:' + prod})
         if not called and any(p.get('ok') for p in r['paths']):
-            out['cex'].append({'kind': 'kw', 'note': '%s succeeds without calling %s (vacuous scope obligation)' % (prod, '/'.join(callees)), 'model': None,
-                               'status': 'reproduced', 'role': 'kw:vacuous:' + prod})
+            # the production no longer goes through the sub-parser the obligation is attached to (restructured grammar): undecided
+            raise Inconclusive('%s succeeds without calling %s: the scope obligation has no anchor' % (prod, '/'.join(callees)))
         out['wall'] = round(time.time() - t0, 2)
         return out
     return Case('scope/' + prod, work)
